@@ -143,6 +143,18 @@ func Generate(seed uint64, n int, tier, corpusDir string, shard int, out *kit.Ou
 		}
 		hs = append(hs, genHistory(r.Fork(), backend))
 	}
+	// concurrent conditional operations on both real backends (see runConc)
+	for i, be := range []string{"mem", "bbolt", "bbolt"} {
+		keys := 25
+		if tier == "thorough" {
+			keys = 150
+		}
+		c, err := runConc(be, 2+2*i, keys, seed+uint64(shard))
+		if err != nil {
+			return err
+		}
+		out.Emit(c)
+	}
 	for _, h := range hs {
 		for _, o := range h.Ops {
 			o.Out = ""
